@@ -203,7 +203,9 @@ def r3_vector(ctx):
         a = c[2]
         want = (Q.sub(cfi, 0), ("elem", Q.sub(cfi, 1), lid), ("elem", Q.sub(cfi, 2), lid))
         okr = recv == ("elem", Q.self_attr("components"), lid)
-        oka = True if tuple(a) == want and okr else (False if len(a) == 3 and (a[1] == want[2] or a[2] == want[1] or a[2] == Q.sub(cfi, 2) or a[1] == Q.sub(cfi, 1)) else None)
+        fixed = lambda t, base: t[0] == "sub" and t[1] == base and is_const(t[2])       # noqa: E731  data[0] / weights[0] inside the loop: one element for every component
+        oka = True if tuple(a) == want and okr else (False if len(a) == 3 and (a[1] == want[2] or a[2] == want[1] or a[2] == Q.sub(cfi, 2) or a[1] == Q.sub(cfi, 1)
+                                                                           or fixed(a[1], Q.sub(cfi, 1)) or fixed(a[2], Q.sub(cfi, 2))) else None)
         ctx.check("R3", qn + "|component-fit-arguments", oka, "component i is fitted with (coordinates, data[i], weights[i])",
                   bad="component fit receives %s" % show(("tuple", a))[:140], fn=qn)
         okreg = any(e.kind == "setattr" and e.data[1] == "region_" and e.data[2][0] == "call" and callee(e.data[2]) == "verde.coordinates.get_region" for e in p.events)
